@@ -25,6 +25,7 @@ ASSUMPTIONS = ["T's own Clone is a deep copy when T is used as an element type (
 
 def run(ctx):
     g = ctx.facts.getters()
+    find_returns_root(ctx, g)
     for wrap, impl, wpath, ipath in PAIRS:
         clone_rules(ctx, g, wrap, impl)
         sync_rules(ctx, g, wrap, wpath)
@@ -182,6 +183,50 @@ def classes_keying(ctx, cl, wpath):
                 okp = contains(idx, lambda x: x == key) and contains(idx, lambda x: x[0] == "call" and x[1].endswith("::get")) and uncl(st(t["args"][1])) == elem
         ctx.ob("T4-classes-keyed-by-rep", cl.name, "member push", "ok" if okp else "violation",
                "an element whose representative is registered is pushed into classes[index found]" if okp else "the element is not pushed into the class found under its representative")
+
+
+def find_returns_root(ctx, g):
+    """find(a) answers with the ROOT of a's tree: the value returned is (the element stored at) root_index(a), or - if find climbs itself -
+    an index x for which parent[x] == x dominates the return.  An ancestor that is not the root (one or two links up, as after a single
+    path-halving step) is a different answer for elements deep in the same tree."""
+    ctx.clauses.append("find returns the root of the element's tree (root_index(a), or an index with parent[x] == x at the return) (T9)")
+    for wpath, generic in (("PartitionImpl::<T>", True), ("IntPartitionImpl", False)):
+        b = ctx.body(M + wpath + "::find")
+        ctx.scan([b])
+        me, a_ = ("param", 1, b.debug.get(1, "")), ("param", 2, b.debug.get(2, ""))
+        r = strip(norm(b.local_origin(0), g))
+        root_call = ("call", M + wpath + "::root_index", (me, a_))
+        idx = None
+        if generic:
+            t = r
+            while is_call(t, "Clone::clone") and len(t[2]) == 1:
+                t = strip(t[2][0])
+            if (is_call(t, "Index::index") or t[0] == "index"):
+                base = strip(t[2][0]) if t[0] == "call" else strip(t[1])
+                idx = strip(t[2][1]) if t[0] == "call" else strip(t[2])
+                if base != ("field", me, "elements"):
+                    idx = None
+        else:
+            idx = r
+        ok = idx is not None and (idx == root_call or strip(idx) == root_call)
+        why = "returns %s" % show(r, 1)[:60]
+        if not ok and idx is not None and idx[0] == "local":
+            # a hand-written climb: every return is dominated by parent[x] == x for the returned x
+            rets = [bi for bi, blk in b.live_blocks() if blk["term"]["k"] == "return"]
+            def fixed(bi):
+                for x in b.facts_at(bi):
+                    x = atom_norm(x, g)
+                    if x[0] == "rel" and x[1] == "Eq":
+                        l, rr = strip(x[2]), strip(x[3])
+                        for p_, q_ in ((l, rr), (rr, l)):
+                            if q_ == idx and (is_call(p_, "Index::index") or p_[0] == "index") and contains(p_, lambda y: y == ("field", me, "parent")) and contains(p_, lambda y: y == idx):
+                                return True
+                return False
+            ok = bool(rets) and all(fixed(bi) for bi in rets)
+            why = "climbs itself and returns index %s without parent[x] == x dominating the return" % show(idx, 1)
+        ctx.ob("T9-find-returns-root", b.name, "return", "ok" if ok else "violation",
+               "the answer is the element at root_index(a)" if ok else
+               "find does not answer with the root of the tree (%s): an element three or more links below its representative gets an ancestor, connected elements get different representatives and the answer changes without a union" % why)
 
 
 def parent_stores(b, g, field="parent"):
